@@ -484,7 +484,9 @@ mod e1 {
         let drainer = (0usize..12, prop_oneof![3 => Just(Op::Drain(T)), 1 => Just(Op::DrainAndWait { to: T, timeout_ms: None }), 1 => Just(Op::DrainAndWait { to: T, timeout_ms: Some(5) })], any::<bool>());
         let disturb = prop_oneof![5 => Just(None), 1 => Just(Some(Op::Stop(T))), 1 => Just(Some(Op::Kill(T)))];
         (
-            prop_oneof![3 => Just(Variant::Linked), 2 => Just(Variant::TlLinked)],
+            prop_oneof![3 => Just(Variant::Linked), 2 => Just(Variant::TlLinked), 2 => Just(Variant::LinkedInstant), 1 => Just(Variant::TlLinkedInstant)],
+            // a start-up that takes a while: the drain may arrive before the actor started or inside pre_start
+            proptest::collection::vec(prop_oneof![3 => Just(Act::Yield), 1 => (0u16..3).prop_map(Act::Sleep)], 0..=2),
             proptest::collection::vec(proptest::collection::vec(hact, 0..=3), 1..=3),
             prop::bool::weighted(0.1),
             proptest::collection::vec(sender, 1..=3),
@@ -492,12 +494,12 @@ mod e1 {
             (0usize..14, disturb),
             gen::schedule(max_sched),
         )
-            .prop_map(|(tv, mut handle, failing, senders, drainers, (ddelay, disturb), schedule)| {
+            .prop_map(|(tv, pre_start, mut handle, failing, senders, drainers, (ddelay, disturb), schedule)| {
                 if failing {
                     handle.push(vec![Act::Yield, Act::Fail]);
                 }
                 let sup = ActorSpec { variant: Some(Variant::Spawn), sup_stops: false, ..Default::default() };
-                let t = ActorSpec { variant: Some(tv), parent: Some(S), handle, ..Default::default() };
+                let t = ActorSpec { variant: Some(tv), parent: Some(S), handle, pre_start, ..Default::default() };
                 let mut clients = vec![vec![Op::Spawn(S), Op::Spawn(T)]];
                 for ops in senders {
                     let mut v = vec![];
@@ -608,7 +610,12 @@ mod e1 {
             if started && !stopped_before_sweep {
                 return Err(viol("C07/drain-never-finished", "drain() returned, the system went quiet, but the actor never stopped by itself"));
             }
-            if !disturbed && started {
+            // the start itself must have been possible: spawned under a live supervisor, nothing refused it
+            let spawn_ok = tr.iter().any(|e| matches!(&e.ev, Ev::OpEnd { c, i, res } if matches!(op_of(*c, *i), Some(Op::Spawn(T))) && *res == Res::Ok));
+            if !started && spawn_ok && !disturbed {
+                labels.push("drained-before-started".to_string());
+            }
+            if !disturbed && (started || spawn_ok) {
                 labels.push("clean-drain".to_string());
                 for ((s, q), pos) in &ok_sent {
                     if !handled.contains(&(*s, *q)) {
@@ -776,5 +783,171 @@ impl Part for C07Free {
     }
     fn rule() -> &'static str {
         "2-4 free-running sender threads x 4-14 typed/serialized sends racing one drainer thread (1-2 drain calls) on a detached cell, released from a barrier with generated busy-wait offsets, 25 rounds per generated case; no schedule control (reaches windows without verif_point!); same mailbox oracle as part e2; a violation is reported with the observed history; non-trivial = a send interval overlapped a drain interval"
+    }
+}
+
+// =====================================================================================
+// free-running part over the REAL actor loop: a sender is held between admission and enqueue
+//
+// The e2 parts work on detached cells (no actor task), so what the actor loop does while a drain is in
+// progress and a send is still in flight is outside their reach; on the E1 gate a send is atomic. Here
+// a real Send actor runs on its own OS thread (current-thread runtime), sender threads send a message
+// whose `box_message` busy-waits for a generated time — the send path calls it after the admission and
+// before the enqueue — and a drainer thread calls `drain()`.
+
+pub mod loopfree {
+    use std::sync::{Arc, Mutex};
+
+    use proptest::prelude::*;
+    use ractor::{Actor, ActorId, ActorProcessingErr, ActorRef};
+    use serde::{Deserialize, Serialize};
+
+    use crate::core::viol;
+    use crate::runner::*;
+
+    pub struct HoldInner(pub u32);
+    impl ractor::Message for HoldInner {}
+
+    /// a message whose boxing takes a while (the sender then sits between admission and enqueue)
+    pub struct HoldMsg {
+        pub id: u32,
+        pub spin: u32,
+    }
+    impl ractor::Message for HoldMsg {
+        fn box_message(self, pid: &ActorId) -> Result<ractor::message::BoxedMessage, ractor::message::BoxedDowncastErr> {
+            for _ in 0..self.spin {
+                std::hint::spin_loop();
+            }
+            HoldInner(self.id).box_message(pid)
+        }
+        fn from_boxed(m: ractor::message::BoxedMessage) -> Result<Self, ractor::message::BoxedDowncastErr> {
+            HoldInner::from_boxed(m).map(|i| HoldMsg { id: i.0, spin: 0 })
+        }
+    }
+
+    struct LoopActor;
+    #[cfg_attr(feature = "async-trait", ractor::async_trait)]
+    impl Actor for LoopActor {
+        type Msg = HoldMsg;
+        type State = Arc<Mutex<Vec<u32>>>;
+        type Arguments = Arc<Mutex<Vec<u32>>>;
+        async fn pre_start(&self, _m: ActorRef<HoldMsg>, a: Self::Arguments) -> Result<Self::State, ActorProcessingErr> {
+            Ok(a)
+        }
+        async fn handle(&self, _m: ActorRef<HoldMsg>, msg: HoldMsg, st: &mut Self::State) -> Result<(), ActorProcessingErr> {
+            st.lock().unwrap().push(msg.id);
+            Ok(())
+        }
+    }
+
+    #[derive(Clone, Debug, Serialize, Deserialize)]
+    pub struct LoopCase {
+        /// per sender thread: (spin before the send, spin inside box_message) in units of 64 iterations
+        pub senders: Vec<Vec<(u16, u16)>>,
+        pub drain_spin: u16,
+        pub rounds: u8,
+    }
+
+    pub struct C07LoopFree;
+
+    fn one_round(case: &LoopCase) -> Result<(usize, usize), crate::core::Violation> {
+        let handled: Arc<Mutex<Vec<u32>>> = Arc::new(Mutex::new(vec![]));
+        let (tx, rx) = std::sync::mpsc::channel::<ActorRef<HoldMsg>>();
+        let h2 = handled.clone();
+        let actor_thread = std::thread::spawn(move || {
+            let rt = tokio::runtime::Builder::new_current_thread().enable_time().build().expect("rt");
+            rt.block_on(async move {
+                let (actor, handle) = Actor::spawn(None, LoopActor, h2).await.expect("spawn");
+                let _ = tx.send(actor);
+                // the actor must stop by itself once drained; a generous real-time bound keeps a hang from blocking the shard
+                tokio::time::timeout(std::time::Duration::from_secs(5), handle).await.is_ok()
+            })
+        });
+        let actor = rx.recv().expect("actor ref");
+        let barrier = Arc::new(std::sync::Barrier::new(case.senders.len() + 1));
+        let oks: Arc<Mutex<Vec<(u32, bool)>>> = Arc::new(Mutex::new(vec![]));
+        let mut threads = vec![];
+        for (t, prog) in case.senders.iter().enumerate() {
+            let (a, b, o, prog) = (actor.clone(), barrier.clone(), oks.clone(), prog.clone());
+            threads.push(std::thread::spawn(move || {
+                b.wait();
+                for (k, (pre, hold)) in prog.iter().enumerate() {
+                    for _ in 0..(*pre as u32 * 64) {
+                        std::hint::spin_loop();
+                    }
+                    let id = (t * 100 + k) as u32;
+                    let r = a.send_message(HoldMsg { id, spin: *hold as u32 * 64 });
+                    o.lock().unwrap().push((id, r.is_ok()));
+                }
+            }));
+        }
+        {
+            let (a, b, spin) = (actor.clone(), barrier.clone(), case.drain_spin);
+            threads.push(std::thread::spawn(move || {
+                b.wait();
+                for _ in 0..(spin as u32 * 64) {
+                    std::hint::spin_loop();
+                }
+                let _ = a.drain();
+            }));
+        }
+        for t in threads {
+            let _ = t.join();
+        }
+        let stopped = actor_thread.join().unwrap_or(false);
+        if !stopped {
+            // liveness under a wall-clock bound: not judged
+            actor.kill();
+            eprintln!("C07 free-loop: actor did not stop within 5 s of the round (not judged): {case:?} status={:?}", actor.get_status());
+            return Ok((usize::MAX, 0));
+        }
+        let handled = handled.lock().unwrap().clone();
+        let oks = oks.lock().unwrap().clone();
+        for (id, ok) in &oks {
+            let n = handled.iter().filter(|h| *h == id).count();
+            if *ok && n != 1 {
+                return Err(viol("C07/accepted-message-lost", format!("(free-running threads against the real actor loop; observed history) send of message {id} returned Ok but it was handled {n} times; sends {oks:?}, handled {handled:?}")));
+            }
+            if !*ok && n != 0 {
+                return Err(viol("C07/rejected-message-handled", format!("(free-running threads; observed history) send of message {id} was refused but the message was handled")));
+            }
+        }
+        Ok((oks.iter().filter(|x| x.1).count(), oks.iter().filter(|x| !x.1).count()))
+    }
+
+    impl Part for C07LoopFree {
+        type Case = LoopCase;
+        const PROP: &'static str = "C07";
+        const PART: &'static str = "free-loop";
+        const DETERMINISTIC: bool = false;
+        fn cases(tier: Tier) -> u32 {
+            match tier {
+                Tier::Quick => 1_600,
+                Tier::Thorough => 50_000,
+            }
+        }
+        fn strategy(_tier: Tier) -> BoxedStrategy<LoopCase> {
+            let send = (0u16..40, prop_oneof![2 => Just(0u16), 3 => 1u16..200, 1 => 200u16..2000]);
+            (proptest::collection::vec(proptest::collection::vec(send, 1..=4), 1..=3), 0u16..400)
+                .prop_map(|(senders, drain_spin)| LoopCase { senders, drain_spin, rounds: 6 })
+                .boxed()
+        }
+        fn run(case: &LoopCase, _want_trace: bool) -> Outcome {
+            let (mut acc, mut rej) = (0, 0);
+            for _ in 0..case.rounds {
+                match one_round(case) {
+                    Err(v) => return Outcome { verdict: Verdict::Fail(v), nontrivial: false, labels: vec![], trace: vec![] },
+                    Ok((usize::MAX, _)) => return Outcome::pass(false, vec!["actor-not-stopped-in-5s".to_string()]),
+                    Ok((a, r)) => {
+                        acc += a;
+                        rej += r;
+                    }
+                }
+            }
+            Outcome::pass(acc >= 1 && rej >= 1, vec![])
+        }
+        fn rule() -> &'static str {
+            "a real Send actor on its own OS thread, 1-3 sender threads (1-4 sends each, generated busy-wait before the send and inside the message's box_message, i.e. between admission and enqueue) and a drainer thread released from a barrier, 6 rounds per case; oracle on the observed history: every send that returned Ok is handled exactly once, a refused one never, the actor stops by itself (a 5 s wall-clock bound on that is not judged); non-trivial = sends were both accepted and refused over the rounds"
+        }
     }
 }
